@@ -29,7 +29,7 @@ func init() {
 		Level: "model_checking",
 		Rule: "product per transaction type of per-field domains (strings: empty, valid, malformed, case variants, U+017F, invalid UTF-8, 10 kB; bytes: absent, empty, 31, zero32, nonzero32, 33, 10 kB; amounts: absent, -1, 0, 1, 2^256-1; integers: 0, 1, max), " +
 			"each message built as wire bytes and decoded by the generated Unmarshal, in 5 states (populated, both paused, default genesis, threshold near 2^32/65, malformed-but-accepted attester strings); all 19 queries with nil request and nil/contradictory/extreme pagination; " +
-			"both message decoders and the verifier over all lengths 0..300; the CLI address parser over all strings of length <=3 over {0,x,1,z,O,U+017F} plus long inputs; every call under recover(); " +
+			"both message decoders and the verifier over all lengths 0..300; the CLI address parser over all strings of length <=3 over {0,x,1,z,O,U+017F}, a multi-byte character at every byte offset 0..24 of a base58 string, and long inputs; every call under recover(); " +
 			"distinct_nontrivial = distinct (entry point, field-shape vector) classes",
 		Assumptions: []string{"a panic fingerprint is entry point + innermost repository frame (function), not the line"},
 		Jobs:        c20Jobs,
@@ -574,6 +574,12 @@ func c20CLI(r *Run) {
 		}
 		inputs = append(inputs, nx...)
 		cur = nx
+	}
+	// a multi-byte character at every byte offset of an otherwise valid base58 string (decoders work in blocks)
+	for off := 0; off <= 24; off++ {
+		for _, ch := range []string{"é", "ſ", "€", "\xff", "\xc3"} {
+			inputs = append(inputs, strings.Repeat("1", off)+ch, strings.Repeat("z", off)+ch+"11")
+		}
 	}
 	inputs = append(inputs, "0x"+strings.Repeat("ab", 32), "0x"+strings.Repeat("ab", 33), "0x"+strings.Repeat("ab", 5000), strings.Repeat("z", 44), strings.Repeat("1", 10000),
 		"0X12", "0xzz", "\xff\xfe", "0x\xff", UserA.Str, "0x"+Keys[0].Hex)
